@@ -16,8 +16,8 @@ STUBS = ["base_step / interval_step -> recorders", "np.random.shuffle -> identit
          "np.random.choice(options) -> solver-chosen element", "np.random.permutation -> solver-chosen rotation",
          "_mcmc harness: _homozygosity_probabilities -> symbolic matrix; _denovo_assembler -> marker trace; initial genotype sampling stubbed"]
 ASSUMES = ["fixed-width integer stores follow numba semantics (two's-complement wrap); each store of an out-of-range value is reported by the engine"]
-BOUNDS = {"quick": "compound_step: n_base in {1,2,3,127,128,129}, ploidy 1..2; random_breaks: n <= 5, every breaks < n; _mcmc: 3 SNVs x 2 alleles, ploidy 2, symbolic probabilities and threshold; homozygosity screen: ploidy 2-3, 2-3 alleles, 2 symbolic reads",
-          "thorough": "compound_step: n_base in {1..6, 126..131, 255..258}, ploidy 1..4; random_breaks n <= 8; _mcmc: 4 SNVs x 3 alleles"}
+BOUNDS = {"quick": "compound_step: n_base in {1,2,3,127,128,129}, ploidy 1..2; random_breaks: n <= 5, every breaks < n, and n in {127,128,129,256} with 0-1 breaks; _mcmc: 3 SNVs x 2 alleles, ploidy 2, symbolic probabilities and threshold; homozygosity screen: ploidy 2-3, 2-3 alleles, 2 symbolic reads",
+          "thorough": "compound_step: n_base in {1..6, 126..131, 255..258}, ploidy 1..4; random_breaks n <= 8 and n in {127..129,255..257,300} with 0-1 breaks; _mcmc: 4 SNVs x 3 alleles"}
 OUTSIDE = "n_base beyond 258; statistical uniformity of the shuffles (numba RNG)"
 TASKS_PER_CHILD = 2
 
@@ -31,6 +31,10 @@ def configs(tier):
             out.append(dict(group="sweep", n_base=nb, P=P))
     for n in range(1, 6 if quick else 9):
         for br in range(0, n):
+            out.append(dict(group="breaks", n=n, breaks=br))
+    # interval bounds beyond one byte / two bytes (a locus may have any number of SNVs)
+    for n in ((127, 128, 129, 256) if quick else (127, 128, 129, 255, 256, 257, 300)):
+        for br in (0, 1):
             out.append(dict(group="breaks", n=n, breaks=br))
     out.append(dict(group="scompound", n_iv=3))
     out.append(dict(group="fix", n_pos=3, A=2))
